@@ -55,6 +55,27 @@ Theorem C07_polls_mul : forall la lb, polls (mul_trace la lb) = lb.
 Proof. exact polls_skeleton_mul. Qed.
 Print Assumptions C07_polls_mul.
 
+(* level-1 counts (BigUint operations on raw limb vectors, checked against
+   the implementation through the hook biguint_polls) are the polls of the
+   skeletons *)
+Theorem C07_l1_mul_polls : forall a b,
+  limbs_zero a = false -> limbs_zero b = false ->
+  l1_mul_polls false a false b = polls (mul_trace (nlen a) (nlen b)).
+Proof. exact l1_mul_skeleton. Qed.
+Print Assumptions C07_l1_mul_polls.
+
+Theorem C07_l1_lshift_polls : forall a,
+  l1_lshift_polls false a = polls (lshift1_trace (nlen a + (if N.testbit (last a 0) 63 then 1 else 0))).
+Proof. exact l1_lshift_skeleton. Qed.
+Print Assumptions C07_l1_lshift_polls.
+
+Theorem C07_l1_divmod_polls : forall a b n,
+  l1_divmod_polls false a true b = Some n ->
+  3 <= limbs_val b -> limbs_val b < limbs_val a ->
+  n = polls (divmod_trace (nlen a) 1).
+Proof. exact l1_divmod_skeleton. Qed.
+Print Assumptions C07_l1_divmod_polls.
+
 (* ---------------- (a) loops polled since the repairs ------------------ *)
 (* date +/- n days | weeks | months | years (30274a2), a << n (a55ff29) and
    arithmetic on distributions (f8353e2) now poll in their loops: the gap is
@@ -96,6 +117,27 @@ Print Assumptions C07_polls_min_lshift_n.
 Theorem C07_polls_dist_bop : forall la lb, polls (dist_bop_trace la lb) = dist_bop_polls la lb.
 Proof. exact polls_dist_bop_lemma. Qed.
 Print Assumptions C07_polls_dist_bop.
+
+(* digit expansions (BigRat format_trailing_digits): however many digits are
+   produced -- n decimal places, or a period of up to d - 1 digits found by
+   Brent's cycle detection -- the work between two polls is bounded by a
+   linear function of the denominator's length, and every digit step polls *)
+Theorem C07_gap_bound_digits : forall ld n, gap (digits_trace ld n) <= digit_gap_bound ld.
+Proof. exact gap_bound_digits_lemma. Qed.
+Print Assumptions C07_gap_bound_digits.
+
+Theorem C07_gap_bound_recurring : forall ld n1 lam mu, gap (brent_trace ld n1 lam mu) <= digit_gap_bound ld.
+Proof. exact gap_bound_brent_lemma. Qed.
+Print Assumptions C07_gap_bound_recurring.
+
+Theorem C07_polls_min_digits : forall ld n, digits_polls_of (N.of_nat n) <= polls (digits_trace ld n).
+Proof. exact polls_digits_lemma. Qed.
+Print Assumptions C07_polls_min_digits.
+
+Theorem C07_polls_min_recurring : forall ld n1 lam mu,
+  N.of_nat n1 + N.of_nat lam + 2 * N.of_nat mu <= polls (brent_trace ld n1 lam mu).
+Proof. exact polls_brent_lemma. Qed.
+Print Assumptions C07_polls_min_recurring.
 
 (* ---------------- (a) the same loops before the repairs, and the parser - *)
 (* "the time between successive checks stays bounded for every input" failed
@@ -212,6 +254,8 @@ Example C07_skeleton_examples :
   /\ gap (lshift_n_trace_old 1 640) = 55 /\ polls (lshift_n_trace_old 1 640) = 0
   /\ gap (dist_bop_trace 6 6) = 37 /\ polls (dist_bop_trace 6 6) = 36
   /\ new_die_polls_of 3 6 = 122 /\ date_months_polls_of 1201 = 101
+  /\ preperiod_period 7 = (0, 6) /\ preperiod_period 12 = (2, 1) /\ preperiod_period 97 = (0, 96)
+  /\ recurring_polls_of 9973 = 2 * snd (preperiod_period 9973) /\ (gap (brent_trace 1 5 6 0) <=? digit_gap_bound 1) = true
   /\ gap (parse_juxt_trace 10) = 2047
   /\ pow_polls_of 1 (2 ^ 63) = 64 /\ pow_polls_of 3 200 = 21
   /\ factorial_polls_of 20 = 19 /\ factorial_polls_of 25 = 33.
